@@ -15,6 +15,37 @@ pub fn proj(v: &View) -> Value {
     })
 }
 
+/// nesting depth of a view
+pub fn view_depth(v: &View) -> usize {
+    1 + v.children.iter().map(|(_, c)| view_depth(c)).max().unwrap_or(0)
+}
+
+/// The projection of a deep tree as a pre-order list of positions with their depth (the JSON reader of the trace
+/// specifications refuses documents nested deeper than 255 levels; SchemaTrace!UnflattenProj rebuilds the record).
+pub fn proj_flat(v: &View) -> Value {
+    fn walk(v: &View, d: usize, n: &str, opt: bool, multi: bool, out: &mut Vec<Value>) {
+        out.push(json!({"d": d, "n": n, "opt": opt, "multi": multi, "text": v.text,
+                        "attrs": v.attributes.iter().map(|(m, a)| json!({"n": a, "opt": !m})).collect::<Vec<_>>()}));
+        let mut kids: Vec<&(bool, View)> = v.children.iter().collect();
+        kids.sort_by_key(|(_, c)| c.position);
+        for (m, c) in kids {
+            walk(c, d + 1, &c.name, !m, !c.standalone, out);
+        }
+    }
+    let mut out = Vec::new();
+    walk(v, 0, &v.name, false, false, &mut out);
+    Value::Array(out)
+}
+
+/// "proj" for shallow trees, "projflat" for deep ones
+pub fn result_ok(v: &View) -> Value {
+    if view_depth(v) > 60 {
+        json!({"st": "ok", "projflat": proj_flat(v)})
+    } else {
+        json!({"st": "ok", "proj": proj(v)})
+    }
+}
+
 /// a DOM node built from observed events
 #[derive(Clone, Debug, Default)]
 pub struct Node {
